@@ -748,7 +748,10 @@ def main():
             'rule': 'random trees (<=5 dirs, depth<=3, names with spaces/Unicode/backslashes, hidden files, IGNOREd dir '
                     'with look-alike sibling, sub-Manifests plain/gz/bz2/lzma/xz, compatible duplicates, MISC/EBUILD types) '
                     'consistent by construction + 0..3 discrepancies; distinct = distinct (file set, manifest dirs, ignores, mutation multiset); '
-                    'chains of depth 1..%d with tampering below each level x 4 APIs; %d injected OSErrors' % (3 if tier == 'quick' else 5, faults),
+                    'sub-paths spelled with and without a trailing slash; chains of depth 1..%d with tampering below each level x 6 APIs x max_jobs, '
+                    'one loader asked again after a rejection, unreferenced Manifests dropped next to registered ones; %d injected OSErrors '
+                    '(os.open / scandir of files and directories; Manifests that cannot be read: ELOOP, EIO, corrupt compressed streams through the CLI); '
+                    '324 placements / orders of duplicate entries that agree or conflict on a common checksum' % (3 if tier == 'quick' else 5, faults),
             'samples': samples, 'violations': viol, 'wall_s': time.time() - t0})
 
 
